@@ -26,7 +26,25 @@ def _ranges(oe: OrderEval, ranks: tuple[int, ...]) -> list[R] | None:
     return out
 
 
+def r_no_total_ordering(ck: Checker) -> bool:
+    """functools.total_ordering derives <=, >, >= from __lt__ and __eq__; the dataclass __eq__ of CodePoint compares index, line and
+    column, the order compares the index only: the derived comparisons then disagree with the index order for points that share an index."""
+    from ..astutil import decorators
+    fired = False
+    for cname in ("CodePoint", "CodeRange"):
+        c = ck.repo.cls(ORIGIN, cname)
+        for name, _ in decorators(c.node):
+            if name.split(".")[-1] == "total_ordering":
+                fired = True
+                ck.violation("R-INTERVAL-LAWS", (c.mod.rel, f"class {cname}"), c.node,
+                             f"{cname} spells out its comparisons on the index (they are not derived from the field-wise dataclass equality)",
+                             construct=f"class {cname} is decorated with total_ordering (<=, >, >= follow the field-wise __eq__, not the index)")
+    return fired
+
+
 def r_interval_laws(ck: Checker) -> None:
+    if r_no_total_ordering(ck):
+        return
     oe = OrderEval(ck.repo)
     cr = ck.repo.cls(ORIGIN, "CodeRange")
     where = (cr.mod.rel, "class CodeRange")
@@ -131,6 +149,13 @@ def r_interval_laws(ck: Checker) -> None:
 def r_add_form(ck: Checker) -> None:
     f = ck.repo.func(ORIGIN, "CodeOrigin.__add__")
     leaves = decision_tree(f.node.body, resolve="calls")
+    # the sum is always a new origin (hull or multi-origin), never one of the operands handed back: an operand of a subclass
+    # (GeneratedCodeOrigin, ...) has its own get_raw() / fqn
+    handed_back = [lf for lf in leaves if lf.outcome == "return" and lf.val() in ("self", "other")]
+    if handed_back:
+        ck.violation("R-ADD-FORM", f, f.node, "CodeOrigin.__add__ returns a CodeOrigin over the hull or delegates to merge_origins; it never returns an operand itself",
+                     construct=f"CodeOrigin.__add__: returns the operand `{handed_back[0].val()}` when {handed_back[0].assign}")
+        return
     k_inst = "isinstance(other, CodeOrigin)"
     k_src = "eq(other.source,self.source)"
     k_ov = "self.position.overlaps(other.position)"
